@@ -13,6 +13,7 @@ package interp
 
 import (
 	"fmt"
+	"os"
 	"sort"
 	"strings"
 )
@@ -196,6 +197,23 @@ func (c *pathCtx) analyzeRaces() ([]RaceReport, int, int) {
 				if _, ok := pairs[key]; !ok {
 					pairs[key] = cand{a, b, cell}
 				}
+			}
+		}
+	}
+	if os.Getenv("SYMGO_RACEDEBUG") != "" {
+		fmt.Fprintf(os.Stderr, "race debug: %d events, %d cells, %d candidate pairs, %d constraints\n", len(evs), len(byCell), len(pairs), len(cons))
+		for _, cell := range cells {
+			accs := byCell[cell]
+			gs := map[int]int{}
+			w := 0
+			for _, a := range accs {
+				gs[a.g]++
+				if evs[a.ev].kind == evWrite {
+					w++
+				}
+			}
+			if len(gs) >= 2 && w > 0 {
+				fmt.Fprintf(os.Stderr, "  shared cell %x: per-goroutine %v writes=%d first=%s\n", cell, gs, w, c.describeAccess(evs[accs[0].ev]))
 			}
 		}
 	}
